@@ -98,6 +98,14 @@ impl Outgoing {
         self.data_buffer.clone()
     }
 
+    #[cfg(feature = "verif-hooks")]
+    pub(crate) fn verif_inflight(&self) -> Vec<u16> {
+        self.inflight_buffer
+            .iter()
+            .map(|(pkid, _, _)| *pkid)
+            .collect()
+    }
+
     pub fn free_slots(&self) -> usize {
         MAX_INFLIGHT - self.inflight_buffer.len()
     }
